@@ -28,7 +28,7 @@ objects, cooperating sites, the process environment or rare value combinations);
 and a scratch checkout, nothing from /verif.  Every change compiles, passes the 297-test suite with the guard off, and comes
 with a demonstration test that fails with the change and passes without it — all of which was re-checked here by
 `selftest/seeded.py` in a scratch worktree (see `meta.json` → `verified_by_main_session`, and `result.json`).  None of them
-is, or ever was, applied to /repo.  {caught} of {n} are reported by the check of their own property at the current commit.
+is, or ever was, applied to /repo.  {caught} of {n} are reported by the check of their own property at the current commit (quick tier; the whole collection was re-evaluated at seeds 1, 2 and 3).
 
 To run a check against one: `git -C /repo apply /verif/seeded/<id>/patch.diff && ./check <Cxx> quick; git -C /repo checkout -- .`
 (or, without touching /repo, `python3 selftest/seeded.py seeded/<id>`).
